@@ -31,6 +31,32 @@ TRUSTED_BASE = [
 ]
 
 
+
+def uncovered_scope(prep, scope_keys, thms):
+    """functions in the scope of the property whose module no listed theorem is about: 'module:function' keys.
+    A theorem is about a module when its `covers` field names it or its name / Lean module contains the module's
+    generated namespace (Gen.<ns>) as a whole word."""
+    import re
+    try:
+        with open(os.path.join(common.LEAN_DIR, 'Gen', 'manifest.json')) as f:
+            man = json.load(f)
+    except (OSError, ValueError):
+        return []
+    text = ' '.join('%s %s %s' % (t['name'], t.get('module', ''), t.get('covers') or '') for t in thms)
+    out = []
+    seen_mod = {}
+    for key in scope_keys:
+        mod = key.split(':')[0]
+        if mod not in seen_mod:
+            ns = man['modules'].get(mod, {}).get('ns', mod.replace('stdnum.', '').replace('.', '_'))
+            short = ns.split('__')[-1] if ns.startswith(('in__', 'is__')) else ns
+            pat = r'(?<![A-Za-z0-9])(%s|%s)(?![a-z])' % (re.escape(ns), re.escape(short))
+            seen_mod[mod] = bool(re.search(pat, text)) or (mod in text)
+        if not seen_mod[mod]:
+            out.append(key)
+    return sorted(out)
+
+
 def run_corr(script, tier, seed):
     """run a hand-written-model correspondence script; returns its JSON summary"""
     path = os.path.join(common.VERIF, 'tools', 'corr', script)
@@ -200,7 +226,7 @@ def main():
             'trusted_base': TRUSTED_BASE + cfg.get('assumptions', []),
             'axioms_seen': axioms_seen,
             'theorems': [{'name': t['name'], 'covers': t.get('covers'), 'status': status[t['name']]['status']} for t in thms][:400],
-            'uncovered': obl.get('uncovered', []),
+            'uncovered': uncovered_scope(prep, scope_keys, thms) + obl.get('uncovered', []),
             'model': {'translated_functions': prep.get('translated'), 'unmodelled_functions': len(prep.get('unmodelled', [])),
                       'failed_lean_modules': prep.get('failed_modules', [])[:30]},
             'evaluations': corr['evaluations'] + search.get('cases', 0),
@@ -211,7 +237,11 @@ def main():
             'correspondence': {'evaluations': corr['evaluations'], 'agree': corr['agree'], 'disagreements': corr['disagreements'][:20], 'parts': corr['parts']},
             'search': {'cases': search.get('cases', 0), 'failing_new': len(new), 'failing_known': len(known),
                        'distribution': search.get('distribution', {}), 'exhaustive': search.get('exhaustive', False)},
-            'explanation': cfg.get('explanation', ''),
+            'explanation': cfg.get('explanation', '') or (
+                'obligations = theorems listed in obligations/%s.json, re-checked by the Lean kernel on definitions regenerated from the '
+                'current source (or on the hand-written model named in MANIFEST.json); `uncovered` = functions in the scope of the property '
+                'that no listed theorem is about (covered by the correspondence run and the failing-input search only); evaluations = '
+                'model-vs-code comparisons + search cases (support, not proof).' % prop),
             'leanchecker': leancheck,
         }
         evidence['coverage'] = cov
